@@ -4,34 +4,43 @@ from fractions import Fraction
 import common, extract
 import oracle_tree as ot
 
-LEAN_MODULE = "ESRVerif.Props.C18"
+LEAN_MODULE = ["ESRVerif.Props.C18", "ESRVerif.Props.C18b"]
 LEVEL = "other"
-LEVEL_TEXT = ("Lean theorems over a hand model of DecoratedNode.__init__/to_list/count_nodes and of the relabelling pass of "
-              "fit_from_string/string_to_aifeyn (special-case tables and string literals regenerated from the source): the label list "
-              "is the prefix form of a tree (valid arity string) and evaluates, under ESR operator semantics, to the function of the sympy "
-              "tree wherever all power bases are positive; complexity = number of labels; float replacement keeps every numeric label "
-              "unless requested and never for direct children of pow, parameters numbered in order. PARTIAL: which sympy tree the four "
-              "parse variants / evalf produce, and that str() of a sympy number denotes its value, are third-party behaviour (assumed, "
-              "sampled); two to_list branches that emit a binary label with one operand are excluded by hypothesis and reported as a defect.")
-TECHNIQUE = ("Lean 4 proof on a hand model + regenerated tables; model-code correspondence on grammar-generated formulas fed the serialised "
-             "sympy tree the real code chose; independent prefix-tree evaluator vs sympy.lambdify of the formula on the real string API")
+LEVEL_TEXT = ("Lean theorems over a hand model of DecoratedNode.__init__/to_list/count_nodes, of the relabelling pass of "
+              "fit_from_string/string_to_aifeyn and of the choice string_to_node makes among its four parse variants (special-case tables, string "
+              "literals, the variants' order and flags, check_operators' rule chain and the call sites' flags regenerated from the source): the label "
+              "list is the prefix form of a tree (valid arity string) and evaluates, under ESR operator semantics, to the function of the sympy "
+              "tree wherever all power bases are positive; complexity = number of labels of the returned variant = the minimum node count over the "
+              "variants that did not raise (first such index), restricted to in-basis variants under check_ops; string_to_node raises iff all "
+              "variants raise; float replacement keeps every numeric label unless requested and never for direct children of pow, parameters "
+              "numbered in order. PARTIAL: which sympy tree each of sympify/kernS/powsimp/factor/evalf produces for a string, and that str() of a "
+              "sympy number denotes its value, are third-party behaviour (the four candidate trees are input of the model; assumed, sampled); two "
+              "to_list branches that emit a binary label with one operand are excluded by hypothesis and reported as a defect.")
+TECHNIQUE = ("Lean 4 proof on a hand model + regenerated tables; model-code correspondence on grammar-generated formulas: ALL FOUR candidate trees of "
+             "the real run (the trees string_to_node itself saw, via a memoised string_to_expr) are serialised and fed to the model's selection, "
+             "compared with the real string_to_node under six flag settings and with the string API end to end; independent prefix-tree evaluator "
+             "vs sympy.lambdify of the formula on the real string API; order-insensitive minimum-node-count oracle on the real string_to_node")
 RULE = ("formula strings drawn from a grammar (x, a0..a3, integers, floats, + - * / ** unary minus, reciprocals, pow with symbolic and numeric "
         "exponents, the unary operators of the basis) for each of the six shipped bases; distinct = (basis, formula); non-trivial = at least "
         "three labels and at least one evaluation point where all power bases are positive")
 EXPLANATION = LEVEL_TEXT
-TRUSTED = ["hand model ESRVerif/Model/ToList.lean (tied by correspondence on the serialised sympy tree: class name, is_number, is_symbol, str, exact value, args / as_two_terms)",
-           "harness/extractors/tolist.py (special-case table, to_list literals, label renaming)",
-           "sympy 1.14: sympify/kernS/evalf/powsimp/factor/str/== on numbers (which tree comes out is observed, not modelled)",
+TRUSTED = ["hand model ESRVerif/Model/ToList.lean, Model/ToListSelect.lean (tied by correspondence on the serialised sympy trees: class name, is_number, is_symbol, str, exact value, args / as_two_terms)",
+           "harness/extractors/tolist.py (special-case table, to_list literals, label renaming, the skeleton of string_to_node matched statement by statement, check_operators' chain, call-site flags)",
+           "sympy 1.14: sympify/kernS/evalf/powsimp/factor/str/== on numbers (which tree each parse variant yields is observed, not modelled)",
+           "numpy.nanargmin (first minimal non-NaN index; ValueError on an all-NaN array) — modelled by hand, exercised through the real string_to_node",
            "harness/oracle_tree.py (independent evaluator) and sympy.lambdify of the formula parsed with esr.fitting.sympy_symbols.sympy_locs",
-           "Python eval() inside generator.is_float is modelled for numeric literals only"]
+           "Python eval() inside generator.is_float is modelled for numeric literals only (incl. the OverflowError of float(<int>) beyond the double range)"]
 ASSUMPTIONS = ["str() of a sympy number denotes its value (Float: 15 significant digits; values compared to 1e-8 relative plus the spread caused by a last-digit error of every printed float)",
                "a formula with none of the six evaluation points admissible (all power bases positive; typically nowhere a real function, e.g. (-1.0)**2.5 or log_abs(a0-a0)) is not held to name only basis operators (labels I, zoo, -oo, sinh, im ...): counted in coverage.unknown_label_without_admissible_point_not_counted; every other failure kind is still reported for it",
                "'never inside exponents' is read as the code documents it: direct children of pow keep their number; a number deeper inside an exponent is replaced (counted in coverage.interpretation_deeper_exponent_replaced, not alarmed on)",
                "power bases: every Pow node of the formula's sympy tree and of the tree the conversion chose, and every explicit **, pow, sqrt, inv, cube argument and denominator, must be positive at an evaluation point",
-               "the four parse variants and the minimum-node-count choice are exercised, not modelled: the model is fed the tree the real code chose"]
+               "the four candidate trees are taken from the real run (string_to_expr with each flag combination, .evalf() when requested); what sympy returns for them is not modelled",
+               "minimum node count is read off the property's mechanism ('four parse variants, minimum node count') and string_to_node's docstring (allow_eval = the kernS=False, evaluate=True option): the oracle on the real code is insensitive to the order of the variants, i.e. a pure reordering (different tie-breaking) is not a violation",
+               "an integer label beyond the range of a double (>= 2^1024 - 2^970) is not a number for generator.is_float (float(<int>) raises OverflowError): model and in-basis oracle follow the code"]
 MODELLED = ["generator.py:DecoratedNode.__init__", "generator.py:DecoratedNode.to_list", "generator.py:DecoratedNode.count_nodes",
             "generator.py:DecoratedNode.is_unity", "generator.py:string_to_node", "generator.py:string_to_expr", "generator.py:labels_to_shape",
-            "generator.py:is_float", "fit_single.py:fit_from_string", "fit_single.py:string_to_aifeyn", "generator.py:check_tree"]
+            "generator.py:is_float", "fit_single.py:fit_from_string", "fit_single.py:string_to_aifeyn", "generator.py:check_tree",
+            "generator.py:check_operators"]
 
 EXTRA_BASES = [
     ("x_cube_sqrt", [["x", "a"], ["cube", "sqrt", "inv", "square"], ["+", "*", "-", "/", "pow"]]),
@@ -49,6 +58,12 @@ INTS = ["1", "2", "3", "4", "5", "10"]
 FLOATS = ["0.5", "1.5", "2.5", "0.25", "3.7", "1.0", "2.0", "0.1"]
 NEGS = ["(-1)", "(-2)", "(-0.5)", "(-1.0)"]
 EXPS = ["2", "3", "-1", "-2", "0.5", "1.5", "2.5", "-0.5", "(1/2)", "4", "-1.5"]
+
+
+# every variant raises / only the sympify variants raise (wrong number of arguments for an ESR function class; kernS builds an
+# undefined function) / a variant converts to a bare `zoo`
+RAISING = ["x+(", "x***2", "exp(x", "a0*", "2x", "exp()", "pow(x)", "inv(x)+a0*", "sqrt_abs(x, x)", "inv(x,2)", "pow(x,a0,2)", "square(inv())",
+           "1/(x-x)", "(x-x)**(-1)", "x*^2", "Abs(x)**2"]
 
 
 def gen_formula(rng, basis, depth, exotic=False):
@@ -323,6 +338,28 @@ def _install():
             raise r
         return r
     g.string_to_node = memo
+    # string_to_expr: memoised per formula (the candidate trees the harness serialises ARE the trees string_to_node saw;
+    # sympy objects are immutable) and traced (which parse variants a call of string_to_node really ran, in which order)
+    orig_s2e = g.string_to_expr
+    _ST["orig_s2e"] = orig_s2e
+    _ST["s2e_cache"] = {}
+    _ST["s2e_trace"] = None
+
+    def s2e(s, kern=False, evaluate=False, locs=None):
+        if _ST["s2e_trace"] is not None:
+            _ST["s2e_trace"].append((bool(kern), bool(evaluate)))
+        key = (s, bool(kern), bool(evaluate), None if locs is None else id(locs))
+        c = _ST["s2e_cache"]
+        if key not in c:
+            try:
+                c[key] = (True, orig_s2e(s, kern=kern, evaluate=evaluate, locs=locs))
+            except Exception as e:
+                c[key] = (False, e)
+        ok, r = c[key]
+        if not ok:
+            raise r
+        return r
+    g.string_to_expr = s2e
     _ST["orig_single"] = fs.single_function
     fs.single_function = lambda labels, *a, **k: (0.0, 0.0, []) if k.get("return_params") else (0.0, 0.0)
     orig_t2a = fs.tree_to_aifeyn
@@ -342,6 +379,7 @@ def _uninstall():
     from esr.generation import generator as g
     import esr.fitting.fit_single as fs
     g.string_to_node = _ST["orig_s2n"]
+    g.string_to_expr = _ST["orig_s2e"]
     fs.single_function = _ST["orig_single"]
     fs.tree_to_aifeyn = _ST["orig_t2a"]
     _ST["installed"] = False
@@ -454,7 +492,8 @@ def process(job):
         formula, bname, basis, points, mode = job
         return dict(f=formula, b=bname, mode="timeout", fails=[], interp=0, s2n=dict(ok=False, exc="harness-timeout"),
                     ev=dict(ok=False, exc="harness-timeout"), F0=dict(ok=False, exc="harness-timeout"), F1=dict(ok=False, exc="harness-timeout"),
-                    A0=dict(ok=False, exc="harness-timeout"), A1=dict(ok=False, exc="harness-timeout"), admissible=0, lines=[])
+                    A0=dict(ok=False, exc="harness-timeout"), A1=dict(ok=False, exc="harness-timeout"), admissible=0, lines=[],
+                    cands={}, sel={}, trace={}, sel_fails=[])
     finally:
         signal.setitimer(signal.ITIMER_REAL, 0)
         signal.signal(signal.SIGALRM, old)
@@ -467,6 +506,7 @@ def _process(job):
     from esr.generation import generator as g
     import esr.fitting.fit_single as fs
     _ST["cache"].clear()
+    _ST["s2e_cache"].clear()
     rec = dict(f=formula, b=bname, mode=mode, fails=[], interp=0)
     # 1. string_to_node, default arguments
     expr0 = expr1 = None
@@ -502,10 +542,158 @@ def _process(job):
             else:
                 rec[key] = dict(ok=False, exc=_exc(e))
     rec["admissible"] = 0
+    _selection(rec, g, formula, basis)
     if mode == "full":
         _oracle(rec, formula, basis, points, [expr0, expr1])
     rec["lines"] = sorted(_ST.get("lines", ()))
     return rec
+
+
+# --------------------------------------------------------------------------------------------------------------
+# the choice among the four parse variants (string_to_node): candidates, configurations, oracle on the real code
+# --------------------------------------------------------------------------------------------------------------
+
+# string_to_node tries every combination of string_to_expr's two flags ("four parse variants"); the oracle below is
+# insensitive to their order, the correspondence uses the order regenerated from the source (extractors/tolist.variants)
+DOC_COMBOS = [(False, True), (False, False), (True, True), (True, False)]
+ALLOW_EVAL_VARIANT = (False, True)          # docstring: "allow_eval: whether to run the (kernS=False and evaluate=True) option"
+# (evalf, check_ops, allow_eval): (F,F,T) and (T,F,T) are the `s2n` / `ev` calls made above
+SELECT_CONFIGS = [(False, False, True), (True, False, True), (False, True, True), (True, True, True), (False, False, False), (True, True, False)]
+# sympy prints these number constants by a name check_operators' sympy_numerics list contains (lower-cased)
+_NUMBER_NAMES = ("pi", "nan", "eulergamma", "catalan", "goldenratio", "tribonacciconstant")
+
+
+def _cfg_key(cfg):
+    return "evalf=%d,check_ops=%d,allow_eval=%d" % tuple(int(b) for b in cfg)
+
+
+def _is_number_label(l):
+    """a numeric literal as sympy prints numbers; an integer (or quotient of integers) beyond the range of a double is not a
+    number for ESR (generator.is_float: float(10**400) raises OverflowError) — the oracle follows that reading"""
+    if ot.number_value(l) is None or not re.match(r"[-+]?[0-9.]", l):
+        return False
+    m = re.match(r"[-+]?(\d+)(?:/[-+]?(\d+))?\Z", l)
+    if m:
+        try:
+            float(int(m.group(1)) / int(m.group(2))) if m.group(2) else float(int(m.group(1)))
+        except (OverflowError, ZeroDivisionError, ValueError):
+            return False
+    return True
+
+
+def _label_in_basis(l, basis, flat):
+    """independent reading of 'the operator / leaf is in the basis' (numbers and parameters count as 'a', x<k> as 'x')"""
+    if ot.api_name(l) in flat:
+        return True
+    if (_is_number_label(l) or l.lower() in _NUMBER_NAMES or re.match(r"a\d+\Z", l)):
+        return "a" in flat
+    if re.match(r"x\d+\Z", l):
+        return "x" in flat
+    return False
+
+
+def _in_basis(labels, basis):
+    flat = set(x for c in basis for x in c)
+    return all(_label_in_basis(l, basis, flat) for l in labels)
+
+
+def _candidates(g, formula, basis, evalf):
+    """the four candidate trees exactly as string_to_node builds them, by flag combination"""
+    out = {}
+    for kern, ev in DOC_COMBOS:
+        d = dict(parsed=False, ok=False)
+        try:
+            e = g.string_to_expr(formula, kern=kern, evaluate=ev, locs=None)
+            if evalf:
+                e = e.evalf()
+            d["parsed"] = True
+            try:
+                d["ser"] = serialise(e)
+            except Exception as ex:                     # not a sympy tree (e.g. a tuple): cannot be sent to the model
+                d["ser"] = None
+                d["ser_exc"] = _exc(ex)
+            n = g.DecoratedNode(e, basis)
+            c = n.count_nodes(basis)
+            labels = n.to_list(basis)
+            d.update(ok=True, count=int(c), labels=[str(l) for l in labels], ck=bool(g.check_operators(n, basis)))
+        except Exception as ex:
+            d["exc"] = _exc(ex)
+        out[(kern, ev)] = d
+    return out
+
+
+def _selection(rec, g, formula, basis):
+    s2n = _ST["orig_s2n"]
+    rec["cands"] = {}
+    for evalf in (False, True):
+        try:
+            rec["cands"][evalf] = _candidates(g, formula, basis, evalf)
+        except Exception as ex:
+            rec["cands"][evalf] = None
+            rec["cands_exc"] = _exc(ex)
+    rec["sel"] = {}
+    rec["trace"] = {}
+    for cfg in SELECT_CONFIGS:
+        evalf, ck, ae = cfg
+        _ST["s2e_trace"] = []
+        try:
+            e, n, c = _silent(s2n, formula, basis, evalf=evalf, allow_eval=ae, check_ops=ck)
+            labels = n.to_list(basis)
+            try:
+                ser = serialise(e)
+            except Exception:
+                ser = None
+            rec["sel"][cfg] = dict(ok=True, labels=[str(l) for l in labels] if labels is not None else None, c=int(c), ser=ser)
+        except Exception as ex:
+            rec["sel"][cfg] = dict(ok=False, exc=_exc(ex))
+        rec["trace"][cfg] = _ST["s2e_trace"]
+        _ST["s2e_trace"] = None
+    rec["sel_fails"] = _selection_oracle(rec, formula, basis)
+
+
+def _selection_oracle(rec, formula, basis):
+    """string_to_node's documented choice, checked on the real outputs without the model: it returns iff some permitted
+    variant converts; the complexity is the number of returned labels and the MINIMUM node count over the permitted variants
+    that convert (with check_ops, over those whose labels are all in the basis, if any — and then the returned labels are
+    all in the basis).  Independent of the order of the variants."""
+    fails = []
+    for cfg in SELECT_CONFIGS:
+        evalf, ck, ae = cfg
+        cands = rec["cands"].get(evalf)
+        r = rec["sel"][cfg]
+        if cands is None:
+            continue
+        P = [d for combo, d in cands.items() if d["ok"] and (ae or combo != ALLOW_EVAL_VARIANT)]
+        k = _cfg_key(cfg)
+        if not r["ok"]:
+            if P:
+                fails.append(("S2N-SELECT:raises:%s[%s]" % (r["exc"], k),
+                              "string_to_node(%r, %s) raised %s although %d parse variant(s) convert (node counts %r)" % (
+                                  formula, k, r["exc"], len(P), [d["count"] for d in P])))
+            continue
+        if r["labels"] is None:
+            continue
+        if not P:
+            fails.append(("S2N-SELECT:returns-without-candidate[%s]" % k, "string_to_node(%r, %s) returned %r although no permitted parse variant converts" % (formula, k, r["labels"])))
+            continue
+        if r["c"] != len(r["labels"]):
+            fails.append(("S2N-SELECT:complexity[%s]" % k, "string_to_node(%r, %s) reports complexity %d but the returned node has %d labels %r" % (
+                formula, k, r["c"], len(r["labels"]), r["labels"])))
+        Q = [d for d in P if _in_basis(d["labels"], basis)] if ck else []
+        pool = Q or P
+        lo = min(d["count"] for d in pool)
+        what = "in-basis " if Q else ""
+        if r["c"] > lo:
+            best = [d["labels"] for d in pool if d["count"] == lo][0]
+            fails.append(("S2N-SELECT:not-minimal[%s]" % k, "string_to_node(%r, %s) returned %r (complexity %d) but the %sparse variant %r has only %d nodes" % (
+                formula, k, r["labels"], r["c"], what, best, lo)))
+        elif r["c"] < lo:
+            fails.append(("S2N-SELECT:below-every-permitted-variant[%s]" % k, "string_to_node(%r, %s) returned %r (complexity %d) but every permitted %sparse variant has at least %d nodes" % (
+                formula, k, r["labels"], r["c"], what, lo)))
+        if Q and not _in_basis(r["labels"], basis):
+            fails.append(("S2N-SELECT:out-of-basis[%s]" % k, "string_to_node(%r, %s) returned %r which names operators outside the basis although the variant %r is in the basis" % (
+                formula, k, r["labels"], Q[0]["labels"])))
+    return fails
 
 
 def _oracle(rec, formula, basis, points, chosen):
@@ -697,6 +885,12 @@ def _jobs(ctx, n, bases):
             continue                                   # constant formulas: only a few
         seen.add((bname, f))
         jobs.append((f, bname, basis, pts, mode))
+    # strings on which some or all parse variants raise (string_to_node raises iff all do): correspondence + selection oracle only
+    for k, f in enumerate(RAISING):
+        for bname, basis in (bases[k % len(bases)], bases[(k + 3) % len(bases)]):
+            if (bname, f) not in seen:
+                seen.add((bname, f))
+                jobs.append((f, bname, basis, pts, "corr"))
     return jobs, pts
 
 
@@ -738,6 +932,7 @@ def run(ctx):
     # import the staged ESR before forking
     from esr.generation import generator as g      # noqa
     import esr.fitting.fit_single as fs             # noqa
+    _tables(ctx)
     n = 30000 if deep else 1500
     n = int(os.environ.get("C18_N", n))
     jobs, pts = _jobs(ctx, n, bases)
@@ -749,6 +944,164 @@ def run(ctx):
         _uninstall()
     ctx.extra["real_code_wall_s"] = round(time.time() - t0, 1)
     _compare(ctx, jobs, recs, pts)
+
+
+def _tables(ctx):
+    """order / flags of the parse variants and the call sites' flags as regenerated from the staged source (the model reads
+    the same tables from Generated/ToList.lean); if the source shape is not recognised the documented order is used and the
+    correspondence is reported broken"""
+    from extractors import tolist as tlx
+    try:
+        variants, defaults = tlx.s2n_skeleton(ctx.stage)
+        _ST["variants"] = [(k, e, g_) for k, e, g_, _ in variants]
+        _ST["call_sites"] = {name: (ef, ck, ae) for name, ef, ae, ck, _ in tlx.call_sites(ctx.stage, defaults)}
+        _ST["tables_ok"] = True
+    except Exception as e:
+        _ST["variants"] = [(k, e_, (k, e_) == ALLOW_EVAL_VARIANT) for k, e_ in DOC_COMBOS]
+        _ST["call_sites"] = {"fit_from_string": (True, False, True), "string_to_aifeyn": (True, False, True)}
+        _ST["tables_ok"] = False
+        ctx.disagree("corr:string_to_node-select", "the skeleton of string_to_node / its call sites could not be read from the source (%s): "
+                     "the model still has the last recognised variant table" % (str(e)[:300],))
+    ctx.extra["parse_variants"] = [dict(index=i, kern=k, evaluate=e, behind_allow_eval=g_) for i, (k, e, g_) in enumerate(_ST["variants"])]
+    ctx.extra["call_sites"] = {n: dict(evalf=v[0], check_ops=v[1], allow_eval=v[2]) for n, v in _ST["call_sites"].items()}
+
+
+def _cand_tokens(cands, variants):
+    """`CAND | CAND | …` in the variants' index order; None if some tree cannot be sent"""
+    parts = []
+    for k, e, g_ in variants:
+        d = cands[(k, e)]
+        if not d["parsed"]:
+            parts.append("none")
+        elif d.get("ser") is None:
+            return None
+        else:
+            parts.append(" ".join(d["ser"]))
+    return " | ".join(parts)
+
+
+def _select_ops(jobs, recs):
+    """op lines for the model's string_to_node / string API and what the real code did"""
+    variants = _ST["variants"]
+    ops, want = [], []
+    skipped = 0
+    for job, rec in zip(jobs, recs):
+        f, bname, basis, _, _ = job
+        if rec["mode"] == "timeout":
+            continue
+        bs = "%s %s %s" % (_bs(basis[0]), _bs(basis[1]), _bs(basis[2]))
+        toks = {}
+        for evalf in (False, True):
+            cands = rec["cands"].get(evalf)
+            toks[evalf] = None
+            if cands is None:
+                continue
+            if not all((not d["ok"]) or _sendable(d["labels"]) for d in cands.values()):
+                continue
+            toks[evalf] = _cand_tokens(cands, variants)
+        for cfg in SELECT_CONFIGS:
+            evalf, ck, ae = cfg
+            r = rec["sel"].get(cfg)
+            if toks[evalf] is None or r is None or (r["ok"] and (r["labels"] is None or r["ser"] is None or not _sendable(r["labels"]))):
+                skipped += 1
+                continue
+            cands = rec["cands"][evalf]
+            cs, ib = [], ""
+            for k, e, g_ in variants:
+                d = cands[(k, e)]
+                run_ = ae or not g_
+                cs.append(str(d["count"]) if (d["ok"] and run_) else "n")
+                ib += "1" if (ck and run_ and d["ok"] and d["ck"]) else "0"
+            ops.append("tlselect %s %d %d %s" % (bs, int(ae), int(ck), toks[evalf]))
+            want.append(dict(kind="select", f=f, b=bname, cfg=cfg, r=r, counts=",".join(cs), ib=ib, cands=[cands[(k, e)] for k, e, g_ in variants],
+                             trace=rec["trace"].get(cfg), expect_trace=[(k, e) for k, e, g_ in variants if ae or not g_]))
+        for api, fn, keys in (("FIT", "fit_from_string", ("F0", "F1")), ("AIF", "string_to_aifeyn", ("A0", "A1"))):
+            site = _ST["call_sites"].get(fn)
+            if site is None or toks[site[0]] is None:
+                continue
+            for rf, key in enumerate(keys):
+                r = rec[key]
+                if r["ok"] and not _sendable(r["labels"]):
+                    continue
+                ops.append("tlapi %s %d %s %s" % (fn, rf, bs, toks[site[0]]))
+                want.append(dict(kind="api", f=f, b=bname, key=key, line="ok " + " ".join(r["labels"]) if r["ok"] else "err"))
+    return ops, want, skipped
+
+
+_BOUND = 2 ** 1024 - 2 ** 970          # float(n) raises OverflowError from here on
+IS_FLOAT_PROBES = ["0", "7", "-3", "+2", "1/2", "-1/3", "1/0", "2.50000000000000", "1.0e-5", "1e400", "1.0e+400", "-1.5E3", ".5", "5.", "1e", "e5", "--1",
+                   "a0", "x", "pi", "E", "nan", "inf", "oo", "zoo", "I", "None", "1/2/3", "0x10", "1_0",
+                   str(_BOUND - 1), str(_BOUND), "-" + str(_BOUND), str(2 ** 1024 - 2 ** 971), "1" + "0" * 400, "1" + "0" * 400 + ".0",
+                   "1" + "0" * 400 + "/3", "1" + "0" * 400 + "/1" + "0" * 200, "%d/7" % (7 * _BOUND), "%d/7" % (7 * _BOUND - 1), "3/" + "1" + "0" * 400]
+
+
+def _compare_is_float(ctx):
+    """generator.is_float (Python eval) against the model on literal shapes, incl. the OverflowError of float(<int>)"""
+    from esr.generation import generator as g
+    probes = [p_ for p_ in IS_FLOAT_PROBES if p_ and not re.search(r"\s", p_)]
+    out = _model(ctx, ["tlisfloat " + p_ for p_ in probes])
+    bad = 0
+    for p_, m in zip(probes, out):
+        real = "1" if _silent(g.is_float, p_) else "0"
+        if p_ in ("0x10", "1_0", "--1", "1/2/3"):
+            continue                                   # Python expression forms sympy never prints for a number: not modelled
+        if m != real:
+            bad += 1
+            ctx.disagree("corr:is_float", "is_float(%r): code=%s model=%s" % (p_[:60] + ("…(%d chars)" % len(p_) if len(p_) > 60 else ""), real, m))
+    ctx.extra["is_float_probes"] = dict(ops=len(probes), mismatches=bad)
+    return bad
+
+
+def _compare_select(ctx, jobs, recs):
+    ops, want, skipped = _select_ops(jobs, recs)
+    out = _model(ctx, ops)
+    n = dict(select=0, api=0)
+    bad = dict(select=0, api=0)
+    chosen = {}
+    ties = masked = 0
+
+    def report(kind, msg):
+        bad[kind] += 1
+        if bad[kind] <= 4:
+            ctx.disagree("corr:string_to_node-select", msg)
+    for o, w, m in zip(ops, want, out):
+        n[w["kind"]] += 1
+        if w["kind"] == "api":
+            if m != w["line"]:
+                report("api", "formula %r basis %s: %s via the model of string_to_node+relabel: code=%s model=%s op=%s" % (w["f"], w["b"], w["key"], w["line"][:200], m[:200], o[:300]))
+            continue
+        r, cfg = w["r"], _cfg_key(w["cfg"])
+        head = "formula %r basis %s [%s]: " % (w["f"], w["b"], cfg)
+        if w["trace"] != w["expect_trace"]:
+            report("select", head + "string_to_node called string_to_expr with (kern, evaluate) = %r, the regenerated variant table says %r" % (w["trace"], w["expect_trace"]))
+            continue
+        t = m.split(" ")
+        if t[0] not in ("ok", "err") or (t[0] == "ok" and len(t) < 5) or (t[0] == "err" and len(t) != 3):
+            report("select", head + "model answered %r op=%s" % (m[:200], o[:300]))
+            continue
+        mc, mib = (t[3], t[4]) if t[0] == "ok" else (t[1], t[2])
+        if mc != w["counts"] or mib != w["ib"]:
+            report("select", head + "per-variant node counts / check_operators: code c=%s all_in_basis=%s model c=%s all_in_basis=%s (variant labels %r)" % (
+                w["counts"], w["ib"], mc, mib, [d.get("labels", d.get("exc")) for d in w["cands"]]))
+            continue
+        if t[0] == "err" or not r["ok"]:
+            if (t[0] == "err") != (not r["ok"]):
+                report("select", head + "code %s, model %s" % ("returned %r" % r["labels"] if r["ok"] else "raised " + r["exc"], m[:200]))
+            continue
+        idx, comp, labels = int(t[1]), int(t[2]), t[5:]
+        chosen[idx] = chosen.get(idx, 0) + 1
+        vals = [x for x in w["counts"].split(",") if x != "n"]
+        ties += int(vals.count(str(comp)) > 1)
+        masked += int("1" in w["ib"] and "0" in w["ib"])
+        if comp != r["c"] or labels != r["labels"] or w["cands"][idx].get("ser") != r["ser"]:
+            report("select", head + "code returned %r (complexity %d), model chose variant %d: %r (complexity %d); counts %s all_in_basis %s" % (
+                r["labels"], r["c"], idx, labels, comp, w["counts"], w["ib"]))
+    ctx.extra.setdefault("correspondence", {})
+    ctx.extra["select_correspondence"] = dict(string_to_node_ops=n["select"], string_to_node_mismatches=bad["select"], api_ops=n["api"], api_mismatches=bad["api"],
+                                             not_sendable=skipped, chosen_index_histogram={str(k): v for k, v in sorted(chosen.items())},
+                                             calls_with_a_tie_at_the_minimum=ties, calls_where_check_ops_masked_a_variant=masked,
+                                             configurations=[_cfg_key(c) for c in SELECT_CONFIGS])
+    return n, bad
 
 
 def _model(ctx, lines):
@@ -794,6 +1147,8 @@ def _compare(ctx, jobs, recs, pts):
         s2 = rec["s2n"]
         if not (s2["ok"] and s2["labels"] and _sendable(s2["labels"])):
             continue
+        if any(ot.number_value(l) is not None and re.match(r"[-+]?[0-9.]", l) and not _is_number_label(l) for l in s2["labels"]):
+            continue                                   # an integer beyond the double range: a number for the oracle, not for generator.is_float
         names = [ot.api_name(l) for l in s2["labels"]]
         try:
             tree = ot.parse(names, basis)
@@ -842,6 +1197,7 @@ def _compare(ctx, jobs, recs, pts):
     lines = set()
     modes = {}
     per_basis = {}
+    n_sel_fail = 0
     for job, rec in zip(jobs, recs):
         f, bname, basis, _, _ = job
         modes[rec["mode"]] = modes.get(rec["mode"], 0) + 1
@@ -869,13 +1225,24 @@ def _compare(ctx, jobs, recs, pts):
                          dict(formula=f, basis=basis, basis_name=bname, points=pts))
         else:
             ctx.case((bname, f), nontrivial=False)
+        for key, whatmsg in rec.get("sel_fails", ()):
+            n_sel_fail += 1
+            ctx.fail(key, "%s [basis %s]" % (whatmsg, bname), dict(formula=f, basis=basis, basis_name=bname, points=pts))
+    ctx.extra["selection_oracle"] = dict(calls=sum(len(r.get("sel", {})) for r in recs), failures=n_sel_fail,
+                                         raised_all_variants=sum(1 for r in recs for v in r.get("sel", {}).values() if not v["ok"]))
     for job, rec in list(zip(jobs, recs))[:6]:
         ctx.sample(dict(formula=job[0], basis=job[1], to_list=rec["s2n"].get("labels"), fit_from_string=rec["F0"].get("labels", rec["F0"].get("exc")),
                         replace_floats=rec["F1"].get("labels", rec["F1"].get("exc")), admissible_points=rec.get("admissible")))
     kinds = sorted(nops)
-    ctx.extra["corr_obligations"] = 3
-    ctx.extra["corr_discharged"] = int(not bad.get("to_list") and not bad.get("to_list(evalf)")) + int(not bad.get("relabel")) + int(ev_bad == 0)
+    sel_n, sel_bad = _compare_select(ctx, jobs, recs)
+    isf_bad = _compare_is_float(ctx)
+    ctx.extra["corr_obligations"] = 6
+    ctx.extra["corr_discharged"] = (int(not bad.get("to_list") and not bad.get("to_list(evalf)")) + int(not bad.get("relabel")) + int(ev_bad == 0)
+                                    + int(_ST.get("tables_ok", False) and sel_n["select"] > 0 and sel_bad["select"] == 0)
+                                    + int(_ST.get("tables_ok", False) and sel_n["api"] > 0 and sel_bad["api"] == 0) + int(isf_bad == 0))
     ctx.extra["correspondence"] = {k: dict(ops=nops[k], mismatches=bad.get(k, 0)) for k in kinds}
+    ctx.extra["correspondence"]["string_to_node_select"] = dict(ops=sel_n["select"], mismatches=sel_bad["select"])
+    ctx.extra["correspondence"]["string_api_from_four_candidates"] = dict(ops=sel_n["api"], mismatches=sel_bad["api"])
     ctx.extra["correspondence"]["evalLabels_vs_oracle"] = dict(ops=len(ev_ops), mismatches=ev_bad)
     ctx.extra["formulas"] = len(jobs)
     ctx.extra["formulas_by_mode"] = modes
@@ -898,11 +1265,16 @@ def _compare(ctx, jobs, recs, pts):
 
 def replay(ctx, data):
     rp = data["replay"]
+    _tables(ctx)
     rec = process((rp["formula"], rp.get("basis_name", "?"), rp["basis"], rp["points"], "full"))
     _uninstall()
     print("formula %r basis %s" % (rp["formula"], rp["basis"]))
     print("  string_to_node -> %s" % (rec["s2n"].get("labels", rec["s2n"].get("exc")),))
     print("  fit_from_string -> %s ; replace_floats -> %s" % (rec["F0"].get("labels", rec["F0"].get("exc")), rec["F1"].get("labels", rec["F1"].get("exc"))))
-    for k, w in rec["fails"]:
+    for cfg, r in rec.get("sel", {}).items():
+        cands = rec["cands"].get(cfg[0]) or {}
+        print("  string_to_node[%s] -> %s ; variants (kern, evaluate): %s" % (_cfg_key(cfg), (r.get("labels"), r.get("c")) if r["ok"] else r["exc"],
+              {k: (d.get("labels"), d.get("count")) if d["ok"] else d.get("exc") for k, d in cands.items()}))
+    for k, w in rec["fails"] + rec.get("sel_fails", []):
         print("  FAILS %s: %s" % (k, w))
-    return not rec["fails"]
+    return not rec["fails"] and not rec.get("sel_fails")
